@@ -27,7 +27,8 @@ PROPERTY = {'id': 'C11',
                   'only writes the two dicts of its own object (frame), so directive state cannot leak into the next run',
                   'a doctest that replaces sys.stdout cannot affect the next one: CaptureStdout.stop/__exit__ put back the stream that was current '
                   'when the capture object was built, unconditionally, and run ends with sys.stdout identical to its entry value'],
-             'T': ['compile / exec / eval / asyncio.run as oracles (pyvc/models_run.py): return a value or raise any class, write to the current '
+             'B': ['the real RuntimeState on a few default dicts x directive sequences: no aliasing of the module-level defaults or of the dict handed in, no write to either (guards the proof against rewrites of __init__ the engine cannot follow)'],
+        'T': ['compile / exec / eval / asyncio.run as oracles (pyvc/models_run.py): return a value or raise any class, write to the current '
                    'sys.stdout, may rebind sys.stdout, bind names in the dict they are given',
                    'CPython: an exception raised while running code compiled with filename F has a traceback entry of F',
                    'RuntimeState seen from outside: update/set_report_style/__getitem__ as assumed contracts over an abstract state (their own '
